@@ -22,7 +22,7 @@ from sx import runner  # noqa: E402
 
 PROPERTY = "C18"
 LEVEL = "model_checking"
-OPTIONS = {"quick": {"max_paths": 200000, "unit_budget_s": 900}, "thorough": {"max_paths": 2000000, "unit_budget_s": 3300}}
+OPTIONS = {"quick": {"max_paths": 200000, "unit_budget_s": 600}, "thorough": {"max_paths": 2000000, "unit_budget_s": 3300}}
 BOUNDS = {
     "quick": {"regex": "all compiled patterns, pump length unbounded (fixpoint)", "scanner": "all strings of length <= 5 over code points < U+0800", "receive": "17 seed messages + one trailing element with symbolic tag / content; termination under a 10 s per-path watchdog"},
     "thorough": {"regex": "same", "scanner": "all strings of length <= 7 over code points < U+0800, length <= 5 over all scalar values"},
